@@ -37,6 +37,21 @@ CATALOGUE = {
     'conn-threshold-header-lost': ('C13', 'billiard/connection.py',
                                    "        if n > 16384:\n",
                                    "        if n > 16384 and n != 16385:\n            self._send(buf)\n        elif n > 16384:\n"),
+    'auth-digest-prefix-compare': ('C18', 'billiard/connection.py',
+                                   "    if response == digest:\n        connection.send_bytes(WELCOME)",
+                                   "    if response and digest.startswith(response):\n        connection.send_bytes(WELCOME)"),
+    'auth-client-skips-deliver': ('C18', 'billiard/connection.py',
+                                  "        answer_challenge(c, authkey)\n        deliver_challenge(c, authkey)\n\n    return c",
+                                  "        answer_challenge(c, authkey)\n        if len(authkey) < 64:\n            deliver_challenge(c, authkey)\n\n    return c"),
+    'auth-welcome-prefix': ('C18', 'billiard/connection.py',
+                            "    if response != WELCOME:\n        raise AuthenticationError('digest sent was rejected')",
+                            "    if not response.startswith(WELCOME[:4]):\n        raise AuthenticationError('digest sent was rejected')"),
+    'auth-static-challenge': ('C18', 'billiard/connection.py',
+                              "    message = os.urandom(MESSAGE_LENGTH)\n    connection.send_bytes(CHALLENGE + message)",
+                              "    message = _STATIC if '_STATIC' in globals() else globals().setdefault('_STATIC', os.urandom(MESSAGE_LENGTH))\n    connection.send_bytes(CHALLENGE + message)"),
+    'auth-str-key-encoded': ('C18', 'billiard/connection.py',
+                             "    if authkey is not None and not isinstance(authkey, bytes):\n        raise TypeError('authkey should be a byte string')\n\n    if authkey is not None:\n        answer_challenge",
+                             "    if isinstance(authkey, str):\n        authkey = authkey.encode()\n    if authkey is not None and not isinstance(authkey, bytes):\n        raise TypeError('authkey should be a byte string')\n\n    if authkey is not None:\n        answer_challenge"),
     'conn-into-buffer-check': ('C13', 'billiard/connection.py',
                                "            if bytesize < offset + size:",
                                "            if bytesize < size:"),
